@@ -25,10 +25,11 @@ def P(*xs):
 # instance factories
 
 def sram_inst(name, dw, depth, aw, ro=False, burst=False, init=None, mode="A", adrs=None, sels=None,
-              ctis=((0, 0),), from_memory=False, adr_max=None):
+              ctis=((0, 0),), from_memory=False, adr_max=None, default_bus=False):
     nb = dw // 8
     init = init or []
-    top = L.build_sram(dw, depth, aw, ro=ro, burst=burst, init=list(init) or None, from_memory=from_memory)
+    top = L.build_sram(dw, depth, aw, ro=ro, burst=burst, init=list(init) or None, from_memory=from_memory,
+                       default_bus=default_bus)
     lean_open = P("sram", nb, depth, aw, int(ro), int(burst), *init)
     mon = lambda: MasterMemMonitor(nb, depth * nb, init_bytes(init, nb), max_wait=4, bursts=burst, read_only=ro)
     if mode == "A":
@@ -94,17 +95,38 @@ class _RegionMaster(ClassicMaster):
         ClassicMaster.__init__(self, nb, max(adrs), hot=0, hot_adrs=adrs)
         self.adrs, self.bursting, self.ashift = adrs, bursting, ashift
         self.beats = []
+        self.gap = []
 
     def reset(self):
         ClassicMaster.reset(self)
         self.beats = []
+        self.gap = []
 
     def next(self, rng, t, last_letter, last_outs):
         if self.pending is not None and last_outs is not None and not last_outs[0]:
             return self.pending
         self.pending = None
+        if self.gap:
+            return self.gap.pop(0)
+        if self.beats and rng.random() < 0.2:
+            # inside a burst: master wait states (STB low, CYC held; the coming beat's lines held, or garbage on
+            # them), or the burst abandoned by dropping CYC
+            nxt = self.beats[0]
+            k = rng.random()
+            if k < 0.6:
+                self.gap = [(1, 0) + tuple(nxt[2:])] * rng.randint(1, 3)
+            elif k < 0.85:
+                self.gap = [(1, 0, rng.randint(0, 1), rng.choice(self.adrs), rng.randint(0, (1 << self.nb) - 1),
+                             rng.randint(0, (1 << (8 * self.nb)) - 1), rng.choice((0, 2, 7)), rng.randint(0, 3))]
+            else:
+                self.beats = []
+                self.gap = [(0, 0) + tuple(nxt[2:])]
+            return self.gap.pop(0)
         if not self.beats:
             if rng.random() < 0.25:
+                if rng.random() < 0.3:      # cyc without stb, garbage (burst tags included) on the other lines
+                    return (1, 0, rng.randint(0, 1), rng.choice(self.adrs), rng.randint(0, (1 << self.nb) - 1),
+                            rng.randint(0, (1 << (8 * self.nb)) - 1), rng.choice((0, 2, 7)), rng.randint(0, 3))
                 return (0, 0, 0, 0, 0, 0, 0, 0)
             full = (1 << self.nb) - 1
             we = rng.randint(0, 1)
@@ -181,6 +203,9 @@ def remap_inst(name, dw, aw, origin, size, regions, addressing="word", depth=Non
         lean_open = P("remap", *p)
         if mode == "A":
             ml = [(0, 0, 0, 0, 0, 0, 0, 0)] + [(1, 1, we, a, (1 << nb) - 1, 0, 0, 0) for a in adrs for we in (0, 1)]
+            # master wait state / dropped cycle with the other lines driven (address in a remapped window)
+            ml += [(1, 0, 1, list(adrs)[len(list(adrs)) // 2], (1 << nb) - 1, L.lane_values(nb)[1], 2, 1),
+                   (0, 1, 0, list(adrs)[-1], 1, 0, 7, 0)]
             alpha = L.with_slave(ml, [(0, 0, 0), (1, L.lane_values(nb)[1], 0), (0, 0, 1)])
             return WbInst(name, top, lean_open, alphabet=alpha, kind="adapter", monitor=lambda: SlaveSideMonitor())
         rs = RefSlave(nb, adr_shift=L.log2i(nb) if addressing == "byte" else 0)
@@ -213,6 +238,35 @@ def wb2csr_inst(name, dw, aw, register, caw=14, mode="A", adrs=None, addressing=
         return WbInst(name, top, lean_open, alphabet=alpha, kind="csr")
     return WbInst(name, top, lean_open, kind="csr", master_gen=ClassicMaster(nb, (1 << aw) - 1),
                   slave_gen=CsrGen(nb), monitor=mon)
+
+
+def wb2csr_bank_inst(name, dw, aw, register, regs, caw=14, paging=0x800, address=0, mode="A", adrs=None,
+                     addressing="word", sels=None):
+    """Wishbone2CSR over a real CSRBank of CSRStorage registers (model: bridge model over b-c12's bank model).
+    Mode B addresses the bank's words only (elsewhere the CSR bus reads 0 and drops writes) and is judged by the
+    reference byte memory with whole-word writes (open finding C07-wb2csr-no-byte-enables)."""
+    nb = dw // 8
+    shift = L.log2i(nb) if addressing == "byte" else 0
+    top = L.build_wb2csr_bank(dw, aw, register, regs, caw=caw, paging=paging, address=address, addressing=addressing)
+    pbits = L.log2i(paging // 4)
+    p = [nb, int(register), shift, caw, dw, 0, pbits, address, len(regs)]
+    for size, reset, atomic in regs:
+        p += [0, size, reset, int(atomic), 0, 0]
+    lean_open = P("wb2csr_bank", *p)
+    if mode == "A":
+        ml = L.master_letters(nb, adrs, sels if sels is not None else range(1 << nb), L.lane_values(nb))
+        return L.BankInst(name, top, lean_open, alphabet=ml)
+    wmap = L.bank_word_map(dw, regs, paging, address)
+    init = {}
+    for a, (k, w) in wmap.items():
+        for lane in range(nb):
+            init[a * nb + lane] = ((regs[k][1] & ((1 << regs[k][0]) - 1)) >> (dw * w + 8 * lane)) & 0xFF
+    # a register word narrower than the bus keeps only its own bits: address full-width words only
+    full = [a for a, (k, w) in sorted(wmap.items()) if regs[k][0] - dw * w >= dw and not regs[k][2]]
+    mon = lambda: MasterMemMonitor(nb, 1 << 40, max_wait=4, write_mask_all=True, init_fn=lambda b: init.get(b, 0),
+                                   adr_map=lambda a: (a >> shift) % (1 << caw))
+    mg = _RegionMaster(nb, [a << shift for a in full], False, 0)
+    return L.BankInst(name, top, lean_open, master_gen=mg, monitor=mon)
 
 
 def cache_inst(name, cachesize, dwm, dws, awm, aws, reverse=True, depth=None, init=None, mode="A", adrs=None,
@@ -292,6 +346,10 @@ def jobs(tier):
     A(lambda: sram_inst("SRAM d4 dw8 from Memory object", 8, 4, 3, adrs=range(6), from_memory=True, init=[1, 0xA1]))
     A(lambda: sram_inst("SRAM d4 dw8 from Memory object, bus_read_only", 8, 4, 3, ro=True, from_memory=True,
                         init=[0xA1, 0, 0xB2, 5], adrs=range(6)))
+    A(lambda: sram_inst("SRAM d8 dw8 aw2 (bus address narrower than the memory)", 8, 8, 2, adrs=range(4), sels=[1],
+                        init=[1, 2, 3, 4, 5, 6, 7, 8]))
+    A(lambda: sram_inst("SRAM d6 dw8 aw2 burst (non-pow2 depth, narrow address)", 8, 6, 2, burst=True, adrs=range(4),
+                        sels=[1], ctis=((0, 0), (2, 0), (7, 0)), init=[1, 2, 3, 4, 5, 6]), q=450, t=20000)
     A(lambda: sram_inst("SRAM d2 dw8 burst", 8, 2, 3, burst=True, adrs=range(4), sels=[1], ctis=CT))
     if not quick:
         A(lambda: sram_inst("SRAM d4 dw8 burst", 8, 4, 3, burst=True, adrs=range(5), sels=[1], ctis=CT))
@@ -307,6 +365,7 @@ def jobs(tier):
                         slave_letters=[(0, 0, 0), (1, 0xD4C3B2A1, 0), (0, 0, 1)]))
     A(lambda: direct_inst("Converter 16->16 (direct connect)", "converter", 16, 2))
     A(lambda: direct_inst("Cache(0) 16->16 (bypass)", "cache", 16, 2))
+    A(lambda: direct_inst("Interface.get_ios + connect_to_pads master -> pads -> slave 16", "pads", 16, 2))
     # --- converters over a real SRAM (real modules composed in one Migen module)
     A(lambda: conv_sram_inst("Down 16->8 / SRAM d4", 16, 8, 2, 4, adrs=range(2 if quick else 3), sels=range(4)), w=8)
     A(lambda: conv_sram_inst("Down 32->8 / SRAM d4", 32, 8, 2, 4, adrs=range(2), sels=[0, 0xF, 1, 8, 6, 3]), q=900, t=25000, w=5)
@@ -331,6 +390,15 @@ def jobs(tier):
     A(lambda: wb2csr_inst("Wishbone2CSR registered dw16 byte-addressed", 16, 3, True, caw=2, adrs=range(10),
                           addressing="byte"))
     A(lambda: wb2csr_inst("Wishbone2CSR unregistered dw8", 8, 3, False, caw=3, adrs=range(9)))
+    # --- Wishbone2CSR over a real CSRBank (bridge model composed with the C12 bank model)
+    BR8 = [(8, 0xA1, False), (8, 0, False), (16, 0x12B2, False)]
+    A(lambda: wb2csr_bank_inst("Wishbone2CSR registered dw8 / CSRBank 3 storages", 8, 4, True, BR8, caw=4, paging=0x10,
+                               address=1, adrs=[0, 4, 5, 6, 7, 8]), q=400, t=30000, w=4)
+    A(lambda: wb2csr_bank_inst("Wishbone2CSR unregistered dw8 / CSRBank 3 storages", 8, 4, False, BR8, caw=4,
+                               paging=0x10, address=1, adrs=[0, 4, 5, 6, 7, 8]), q=250, t=30000, w=4)
+    A(lambda: wb2csr_bank_inst("Wishbone2CSR registered dw16 / CSRBank 2 storages", 16, 3, True,
+                               [(16, 0xB2A1, False), (16, 0, False)], caw=3, paging=0x10, address=0, adrs=range(4),
+                               sels=[0, 3, 1]), q=1500, t=30000, w=4)
     # --- cache, 2 lines x 2 words, both width directions
     A(lambda: cache_inst("Cache 8->16 2 lines x 2 words (free slave)", 4, 8, 16, 3, 2, adrs=range(8), sels=[0, 1],
                          slave_letters=[(0, 0, 0), (1, 0, 0), (1, 0xB2A1, 0)]), q=200, w=9)
@@ -352,7 +420,12 @@ def jobs(tier):
                         init=words_init(24, 4, lambda i: 0x11111111 * (i % 15 + 1))))
     B(lambda: sram_inst("SRAM 100 words dw64 burst (non-pow2 depth, in-range)", 64, 100, 29, burst=True, mode="B",
                         adr_max=79, init=words_init(100, 8, lambda i: 0x0102030405060708 * (i % 31 + 1))))
+    B(lambda: sram_inst("SRAM 96B on its default bus (bus=None), init shorter than the memory", 32, 24, 30, mode="B",
+                        adr_max=23, default_bus=True, init=words_init(10, 4, lambda i: 0x01020304 * (i + 1))))
+    B(lambda: sram_inst("SRAM 64B read_only on its default bus (bus=None)", 32, 16, 30, ro=True, mode="B",
+                        default_bus=True, init=words_init(16, 4, lambda i: 0x0F1E2D3C + i)))
     B(lambda: direct_inst("Converter 64->64 (direct connect, ref slave)", "converter", 64, 12, mode="B"))
+    B(lambda: direct_inst("Interface.get_ios + connect_to_pads 32 (ref slave)", "pads", 32, 30, mode="B"))
     for dwm, dws in ((64, 32), (128, 32), (64, 8), (128, 8), (32, 64), (32, 128), (8, 64), (8, 128)):
         B(lambda dwm=dwm, dws=dws: conv_inst("Converter %d->%d (ref slave)" % (dwm, dws), dwm, dws, 12, mode="B"))
     B(lambda: conv_sram_inst("Down 64->32 / SRAM 1KiB", 64, 32, 10, 256, mode="B",
@@ -386,6 +459,12 @@ def jobs(tier):
     B(lambda: wb2csr_inst("Wishbone2CSR registered dw32 byte-addressed", 32, 28, True, mode="B", addressing="byte"))
     B(lambda: wb2csr_inst("Wishbone2CSR unregistered dw8 caw=16", 8, 20, False, caw=16, mode="B"))
     B(lambda: wb2csr_inst("Wishbone2CSR registered dw64", 64, 20, True, mode="B"))
+    BR32 = [(32, 0x11223344, False), (32, 0, False), (64, 0x0123456789ABCDEF, False), (32, 0xFFFFFFFF, False),
+            (8, 0x5A, False), (32, 7, False)]
+    B(lambda: wb2csr_bank_inst("Wishbone2CSR registered dw32 / CSRBank 6 storages", 32, 30, True, BR32, address=3,
+                               mode="B"))
+    B(lambda: wb2csr_bank_inst("Wishbone2CSR unregistered dw32 byte-addressed / CSRBank 6 storages", 32, 28, False, BR32,
+                               address=5, mode="B", addressing="byte"))
     B(lambda: cache_inst("Cache 16 words 32->128 (ref slave)", 16, 32, 128, 12, 10, mode="B"))
     B(lambda: cache_inst("Cache 64 words 32->32 (ref slave)", 64, 32, 32, 12, 12, mode="B"))
     B(lambda: cache_inst("Cache 32 words 64->16 (ref slave)", 32, 64, 16, 10, 12, mode="B"))
